@@ -374,6 +374,14 @@ class Consumer(object):
             if not self.consumer_group:  # No consumer group, no committing
                 return _handle_shutdown_commit_success(None)
 
+            if self._stopping:
+                # stop() cancelled what we were waiting for (the processor, or
+                # the commit in flight) and is stopping the consumer itself:
+                # nothing more is committed, the shutdown did not complete
+                if not isinstance(result, Failure):
+                    result = Failure(CancelledError())
+                return _handle_shutdown_commit_failure(result)
+
             # Need to commit prior to stopping
             self.commit().addCallbacks(_handle_shutdown_commit_success, _handle_shutdown_commit_failure)
 
